@@ -307,6 +307,30 @@ class _Flattener:
         self.count = 0
         self.select = select  # optional predicate on the helper Function: inline only helpers it accepts
 
+    def _dict_lookup(self, s: ast.stmt) -> Optional[ast.stmt]:
+        """`x = TABLE.get(key[, default])` over a module-level constant dict of literals (at most 8 entries) is the if-chain
+        `if key == k1: x = v1 / elif key == k2: x = v2 / else: x = default` it stands for."""
+        if not (isinstance(s, ast.Assign) and len(s.targets) == 1 and isinstance(s.targets[0], ast.Name) and isinstance(s.value, ast.Call)
+                and isinstance(s.value.func, ast.Attribute) and s.value.func.attr == "get" and isinstance(s.value.func.value, ast.Name)
+                and len(s.value.args) in (1, 2) and not s.value.keywords):
+            return None
+        tname = s.value.func.value.id
+        hits = [st for st in self.mod.tree.body if isinstance(st, (ast.Assign, ast.AnnAssign)) and getattr(st, "value", None) is not None
+                and isinstance((st.targets[0] if isinstance(st, ast.Assign) else st.target), ast.Name)
+                and (st.targets[0] if isinstance(st, ast.Assign) else st.target).id == tname]
+        if len(hits) != 1 or not isinstance(hits[0].value, ast.Dict) or not 1 <= len(hits[0].value.keys) <= 8:
+            return None
+        d = hits[0].value
+        if not all(isinstance(k, ast.Constant) for k in d.keys) or not all(isinstance(v, ast.Constant) for v in d.values):
+            return None
+        key = s.value.args[0]
+        default = s.value.args[1] if len(s.value.args) == 2 else ast.Constant(value=None)
+        orelse: List[ast.stmt] = [ast.Assign(targets=[clone(s.targets[0])], value=clone(default), lineno=s.lineno)]
+        for k, v in reversed(list(zip(d.keys, d.values))):
+            test = ast.Compare(left=clone(key), ops=[ast.Eq()], comparators=[clone(k)])
+            orelse = [ast.If(test=test, body=[ast.Assign(targets=[clone(s.targets[0])], value=clone(v), lineno=s.lineno)], orelse=orelse)]
+        return ast.fix_missing_locations(ast.copy_location(orelse[0], s))
+
     def _table_first_match(self, s: ast.stmt) -> Optional[ast.stmt]:
         if not (isinstance(s, ast.Assign) and len(s.targets) == 1 and isinstance(s.targets[0], ast.Name) and isinstance(s.value, ast.Call)
                 and isinstance(s.value.func, ast.Name) and s.value.func.id == "next" and len(s.value.args) in (1, 2) and isinstance(s.value.args[0], ast.GeneratorExp)):
@@ -442,7 +466,7 @@ class _Flattener:
             return [s]
         # `x = next((name for pred, name in TABLE if pred(arg)), default)` over a module-level constant table of pairs is the if-chain
         # it stands for: `if P1(arg): x = N1 / elif P2(arg): x = N2 / else: x = default`   (first match wins)
-        chain = self._table_first_match(s)
+        chain = self._table_first_match(s) or self._dict_lookup(s)
         if chain is not None:
             self.count += 1
             return [chain]
